@@ -230,6 +230,14 @@ def run(tier, seed, replay=None):
                 doc = {"definitions": {"Lone": {"type": "array", "items": sch}}}
             cases.append({"id": "lone_%s_%s" % (nm, wrap), "settings": {"struct_builder": j % 2 == 0},
                           "history": [{"op": "root", "schema": doc}], "opts": {"has_impl": True}})
+    # struct names on which Pascal-casing is not idempotent (adjacent one-letter words), with builders and with/without type_mod
+    for j, dn in enumerate(["point_x_y", "a_b_c", "v_x", "HTTPServer", "x"]):
+        doc = {"definitions": {dn: {"type": "object", "properties": {"x": {"type": "object", "properties": {"y": {"type": "integer"}}},
+                                                                     "n": {"type": "integer"}}}}}
+        st = {"struct_builder": True}
+        if j % 2:
+            st["type_mod"] = "types"
+        cases.append({"id": "bn%02d" % j, "settings": st, "history": [{"op": "root", "schema": doc}], "opts": {"has_impl": True}})
     for name, doc in workloads.load_fixtures():
         st = {"struct_builder": True}
         if name == "x-rust-type":
